@@ -154,7 +154,8 @@ def gen_program(rng, cfg=None):
                 kv = 1
                 for t in targets:
                     if rng.random() < 0.3:
-                        ks = [kv, kv + 1, kv + 2] if rng.random() < 0.8 else list(range(kv, kv + 7))
+                        # key lists around the formatter's wrap width (5 per line) and its multiples
+                        ks = list(range(kv, kv + rng.choice([2, 3, 3, 5, 6, 7, 10, 11, 15])))
                         kv += len(ks)
                         pairs.append({"keys": [_key(ktype, x) for x in ks], "list": True, "target": t})
                     else:
